@@ -366,7 +366,7 @@ func (vc *VC) bindResults(e *Env, sig *types.Signature, spec *FuncSpec, results 
 		if i < len(spec.Results) {
 			name = spec.Results[i]
 		} else if sig.Results().At(i).Name() != "" && sig.Results().At(i).Name() != "_" {
-			name = sig.Results().At(i).Name()
+			name = e.vc.P.contractResultName(spec, sig, i)
 		}
 		if name != "" {
 			e.vars[name] = r
